@@ -133,6 +133,23 @@ pub fn all_byte_universes2<F: Fam>(ctx: &Ctx, light: &(dyn Fn(&[u8]) + Sync), he
         });
         ctx.count(&format!("{}_frame_plus_suffix", F::NAME), n.load(Relaxed));
     }
+    // the reference encodings of the value universes (U_val, U_size, U_field, U_thresh; frames < 100,000 bytes):
+    // well-formed inputs with every field-value catalogue entry and every relation between fields (DESIGN 0.8)
+    if ctx.prop != "C11" {
+        let t0 = std::time::Instant::now();
+        let (u, _) = crate::checks::values::universe(fam, ctx);
+        let n = AtomicU64::new(0);
+        crate::checks::values::for_items(&u, &|_, a| {
+            if let Some(b) = enc::encode_bytes(fam, a) {
+                if b.len() < 100_000 {
+                    light(&b);
+                    n.fetch_add(1, Relaxed);
+                }
+            }
+        });
+        ctx.count(&format!("{}_reference_encodings_of_value_universes", F::NAME), n.load(Relaxed));
+        ctx.count(&format!("{}_ms_value_universes", F::NAME), t0.elapsed().as_millis() as u64);
+    }
 }
 
 /// U_spell: every legal spelling the reference encoder can produce for U_small
@@ -466,7 +483,7 @@ fn c03_sub_universe<F: Fam>(ctx: &Ctx) {
 }
 
 pub fn c03(ctx: &Ctx) {
-    ctx.set_rule("all byte strings <= 3 (thorough 4) bytes; all complete frames with remaining length <= 2 (3) and all bodies over the 16-byte alphabet B16 up to 5 (6) bytes for the legal control bytes; maximal headers; the complete single-edit neighbourhood N1 (substitution, deletion, insertion, every 16-bit window rewritten as a length, remaining length rewritten to 0..rem+2 and the width boundaries; raw and re-framed) of every U_small frame; splices; legal non-canonical spellings; the malformation catalogue; the targeted text universe (every text-bearing field of every packet type, and every pair of them, filled with - thorough tier: all byte strings <= 3 over a 16-byte alphabet, defective strings of 4..129 bytes; both tiers: - strings of 250..1027 bytes made of 1-, 2-, 3- and 4-byte characters at every alignment, clean and with a wildcard / NUL / invalid byte in front or at the end). Entry points: Packet::decode, Header::decode, decode_async, Header::decode_async, PollPacket (always-ready; 1- and 2-byte reads with the future kept / re-created; end of stream mid-way); additionally every public per-body and per-property-set decoder (Connect::decode_async … AuthProperties::decode_async, decode_with_protocol with all three protocols, LastWill, Protocol, decode_raw_header) called directly on all strings <= 2 bytes, B16^3 and the bodies of all small frames with every byte substituted over B16 and every truncation, for six remaining-length arguments. Monitors: panic (incl. overflow checks and debug_assert in the checked profile), pending-without-cause, call budget, init coverage of the returned body buffer by address ranges, type-invariant walker on returned packets, and on returned ERROR values: every text they carry is well-formed UTF-8 and they format without panicking. Non-trivial = inputs that get past header validation");
+    ctx.set_rule("all byte strings <= 3 (thorough 4) bytes; all complete frames with remaining length <= 2 (3) and all bodies over the 16-byte alphabet B16 up to 5 (6) bytes for the legal control bytes; maximal headers; the complete single-edit neighbourhood N1 (substitution, deletion, insertion, every 16-bit window rewritten as a length, remaining length rewritten to 0..rem+2 and the width boundaries; raw and re-framed) of every U_small frame; splices; legal non-canonical spellings; the malformation catalogue; the reference encodings of the value universes (U_val, U_size, U_field, U_thresh); the targeted text universe (every text-bearing field of every packet type, and every pair of them, filled with - thorough tier: all byte strings <= 3 over a 16-byte alphabet, defective strings of 4..129 bytes; both tiers: - strings of 250..1027 bytes made of 1-, 2-, 3- and 4-byte characters at every alignment, clean and with a wildcard / NUL / invalid byte in front or at the end). Entry points: Packet::decode, Header::decode, decode_async, Header::decode_async, PollPacket (always-ready; 1- and 2-byte reads with the future kept / re-created; end of stream mid-way); additionally every public per-body and per-property-set decoder (Connect::decode_async … AuthProperties::decode_async, decode_with_protocol with all three protocols, LastWill, Protocol, decode_raw_header) called directly on all strings <= 2 bytes, B16^3 and the bodies of all small frames with every byte substituted over B16 and every truncation, for six remaining-length arguments. Monitors: panic (incl. overflow checks and debug_assert in the checked profile), pending-without-cause, call budget, init coverage of the returned body buffer by address ranges, type-invariant walker on returned packets, and on returned ERROR values: every text they carry is well-formed UTF-8 and they format without panicking. Non-trivial = inputs that get past header validation");
     fn fam<F: Fam>(ctx: &Ctx) {
         let sw = Sweep { ctx, nontrivial: AtomicU64::new(0), accepted: AtomicU64::new(0) };
         all_byte_universes2::<F>(ctx, &|b| c03_light::<F>(ctx, &sw, b), &|b| c03_heavy::<F>(ctx, b), &|b| c03_heavy_opt::<F>(ctx, b, ctx.thorough()), true);
@@ -559,7 +576,7 @@ pub fn c06_input<F: Fam>(ctx: &Ctx, sw: &Sweep, b: &[u8]) {
 }
 
 pub fn c06(ctx: &Ctx) {
-    ctx.set_rule("the byte universes of C03 plus frame ++ suffix (all 256 one-byte and B16^2 suffixes) and all 2^16 (control byte, length byte) bare headers: (a) poll accepts => blocking and async return the same packet; (b) poll rejects with an error other than InvalidRemainingLength => the same error from both; (c) for every input blocking = async with end-of-input mapped to incomplete, for Packet and for Header. (a)/(b) apply to inputs that start with a complete frame (decided by the reference header reader). Non-trivial = complete frames that get past header validation");
+    ctx.set_rule("the byte universes of C03 (including the reference encodings of the value universes U_val, U_size, U_field, U_thresh) plus frame ++ suffix (all 256 one-byte and B16^2 suffixes) and all 2^16 (control byte, length byte) bare headers: (a) poll accepts => blocking and async return the same packet; (b) poll rejects with an error other than InvalidRemainingLength => the same error from both; (c) for every input blocking = async with end-of-input mapped to incomplete, for Packet and for Header. (a)/(b) apply to inputs that start with a complete frame (decided by the reference header reader). Non-trivial = complete frames that get past header validation");
     fn fam<F: Fam>(ctx: &Ctx) {
         let sw = Sweep { ctx, nontrivial: AtomicU64::new(0), accepted: AtomicU64::new(0) };
         all_byte_universes::<F>(ctx, &|b| c06_input::<F>(ctx, &sw, b), &|_| {}, true);
@@ -956,7 +973,7 @@ fn c12_targeted<F: Fam>(ctx: &Ctx, sw: &Sweep) -> u64 {
 }
 
 pub fn c12(ctx: &Ctx) {
-    ctx.set_rule("the invariant walker (every text field valid UTF-8 byte-wise, TopicName/TopicFilter pass the library's own predicates and the reference predicates, shared accessors equal the textual split and do not panic, Pid != 0, VarByteInt < 2^28, UTF-8-flagged payloads valid) on every packet any front-end returns over the byte universes of C03, plus a targeted universe: for each text-bearing field of each packet type, all byte strings <= 2 (thorough 3) over a 16-byte alphabet of ASCII / wildcard / UTF-8 lead, continuation, surrogate and invalid bytes, and longer strings (4..129 bytes) with one bad unit at every position; strings of 250..1027 bytes of 1- to 4-byte characters at every alignment, clean and defective; for every pair of text fields of a full packet of every type, a multi-byte character split between the two fields at every byte position (each field ill-formed, the concatenation well-formed); packet identifiers 0/1/FFFF; subscription identifiers around 2^28 in 4- and 5-byte spellings; UTF-8-flagged payloads. Non-trivial = accepted inputs");
+    ctx.set_rule("the invariant walker (every text field valid UTF-8 byte-wise, TopicName/TopicFilter pass the library's own predicates and the reference predicates, shared accessors equal the textual split and do not panic, Pid != 0, VarByteInt < 2^28, UTF-8-flagged payloads valid) on every packet any front-end returns over the byte universes of C03 (including the reference encodings of the value universes U_val, U_size, U_field, U_thresh), plus a targeted universe: for each text-bearing field of each packet type, all byte strings <= 2 (thorough 3) over a 16-byte alphabet of ASCII / wildcard / UTF-8 lead, continuation, surrogate and invalid bytes, and longer strings (4..129 bytes) with one bad unit at every position; strings of 250..1027 bytes of 1- to 4-byte characters at every alignment, clean and defective; for every pair of text fields of a full packet of every type, a multi-byte character split between the two fields at every byte position (each field ill-formed, the concatenation well-formed); packet identifiers 0/1/FFFF; subscription identifiers around 2^28 in 4- and 5-byte spellings; UTF-8-flagged payloads. Non-trivial = accepted inputs");
     fn fam<F: Fam>(ctx: &Ctx) {
         let sw = Sweep { ctx, nontrivial: AtomicU64::new(0), accepted: AtomicU64::new(0) };
         let n = c12_targeted::<F>(ctx, &sw);
